@@ -102,6 +102,23 @@ def scenario(draw) -> Dict[str, Any]:
         ops = [o for o in ops if not (o['op'] == 'cancel_browser' and o['browser'] >= len(browsers) - 2)]
         ops.append({'t': t1 + d1 + draw(st.integers(20, 900)), 'op': 'unregister', 'svc': k, 'what': 'port'})
         joins[x] = joins[y] = 'late'
+    if not shared and draw(st.integers(0, 3)) == 0:
+        # address flip-flop: a service changes its IPv4 address and changes it back (so a peer's cache holds an older record that is
+        # valid again next to a newer one that was flushed), and a browser is started on a long-present host 1-8 s later, inside
+        # the 10 s during which the flushed record is still in that cache: its lookup has to come out right
+        k = draw(st.integers(0, n_svc - 1))
+        if 'v4' not in services[k]['addrs']:
+            services[k]['addrs'] = ['v4'] + [a for a in services[k]['addrs'] if a != 'v4']
+        t_reg = next(o['t'] for o in ops if o['op'] == 'register' and o['svc'] == k)
+        t1 = t_reg + draw(st.integers(3000, 8000))
+        ops = [o for o in ops if not (o.get('svc') == k and o['op'] != 'register')]
+        ops = [o for o in ops if not (o['op'] == 'close_host' and o['t'] < t1 + 15000)]
+        ops.append({'t': t1, 'op': 'update', 'svc': k, 'what': 'addrs'})
+        ops.append({'t': t1 + draw(st.integers(1600, 4000)), 'op': 'update', 'svc': k, 'what': 'addrs'})
+        hb = draw(st.integers(0, n_hosts - 1))
+        joins[hb] = 'start'
+        browsers = browsers[:3] + [{'host': hb, 'types': [services[k]['type']], 'at': t1 + 2400 + draw(st.integers(1200, 8000)), 'qtype': None}]
+        ops = [o for o in ops if not (o['op'] == 'cancel_browser' and o['browser'] >= len(browsers) - 1)]
     return {'shared': shared, 'host_addrs': host_addrs,'seed': draw(st.integers(0, 10**6)), 'hosts': n_hosts, 'joins': joins, 'max_delay': draw(st.sampled_from([0, 20, 100, 100])),
             'dup_pct': draw(st.sampled_from([0, 0, 20])), 'jitter': draw(st.sampled_from(['seed', 'seed', 'seed', 'ends'])),
             'services': services, 'browsers': browsers, 'ops': ops,
